@@ -10,8 +10,18 @@ claimed = {
          "Assumed: bytes.Compare is the lexicographic order, sort.Strings sorts in place, time.Equal/Before/After compare instants; the Resource interface contract (typing of Get); partial correctness of the recursion (acyclic trees); filter trees whose comparison leaves are not on to-many relationships (checkSlice sorts in place; its own contract is proved separately)."),
  "C14": ("Representation invariant schemaWf (unique non-empty type names, per-type attribute/relationship maps keyed by name with valid kinds and non-empty targets, no two types sharing a map) proved to be preserved by AddType, RemoveType, AddAttr, RemoveAttr, AddRel, RemoveRel, AddTwoWayRel and Type.AddAttr/RemoveAttr/AddRel/RemoveRel, with no panic; error returns leave the schema unchanged (deep comparison); removal of something absent changes nothing; HasType/GetType agree with the list; AddTwoWayRel succeeds when types exist and names are free, for either direction and inside one type, and leaves both sides holding the relationship and its inverse. Induction over histories is the invariant preservation.",
          "Assumed: fmt.Errorf/errors.New return non-nil errors; arguments of AddType are well-formed types whose maps are not shared with the schema (domain of the property)."),
- "C16": ("Strongest postconditions on Rel.Invert / Rel.Normalize proved for all inputs from the real SSA; the property's laws (involution, idempotence, either-or, one-way untouched, agreement with the inverse) proved as lemmas over those contracts.",
-         "Strings are SMT sequences compared lexicographically (byte order)."),
+ "C15": ("Schema.Check proved, for every schema and every map iteration order, to return an empty list exactly when the schema is coherent (every target type exists and every relationship naming an inverse is declared from its own type and reciprocated by a relationship of the target type that names it back and points back), to never panic and to write nothing that existed before the call (frame obligations); Schema.GetType/HasType agree with the list of types.",
+         "Not covered: the count 'at least one error per offending relationship' (no cardinality reasoning); fmt.Errorf returns a non-nil error."),
+ "C17": ("SoftResource against its representation invariant and the Resource interface: check() proved to create the lazily allocated parts, fill in exactly the kind's zero value for fields without an entry and keep every stored field value; Get returns the stored value / zero value / id / nil; Set stores exactly the well-typed values (dynamic type equals the schema's Go type), maps untyped nil to the typed nil of nullable kinds and leaves every other field alone; typing of stored values is preserved; AddAttr/AddRel/RemoveField/Attr/Rel/GetType/SetID/GetID/New; GetZeroValue, GetAttrType, GetAttrTypeString tables for all 28 kinds.",
+         "Not covered deductively: Wrapper (reflect-driven) and therefore the soft/wrapped indistinguishability, Equal/EqualStrict (sort + reflect.DeepEqual). Assumed: fmt.Sprintf(\"%T\") prints distinct names for distinct types (table), maps hold fewer than 2^56 entries."),
+ "C18": ("Separation postconditions: Type.Copy, SoftResource.Copy, SoftResource.New and copyData return objects whose type, attribute/relationship maps, data map and every byte string / ID list backing array are freshly allocated (address at or above the allocation counter at entry) with equal content; every mutator's frame (modifies clause, proved) is confined to the resource's own objects, so operations on one cannot change what is read from the other.",
+         "Not covered: Wrapper.Copy/New (reflect). Pointer-valued attributes share their (immutable through the API) pointee."),
+ "C19": ("SoftCollection as an ordered list: Len/At (nil outside the range, negative included), Resource (first match), Remove (deletes the first element with that ID and nothing else: length, prefix and shifted suffix), Add (appends a fresh resource bound to the collection's type with the given ID; prefix unchanged), SetType (rebinds every stored resource), AddAttr/AddRel; the invariant 'every stored resource is non-nil, well-formed and bound to the collection's type' is preserved.",
+         "Value snapshot of Add is covered through SoftResource.Set's contract per field, not restated as one postcondition of Add; the Resource interface contract is assumed of the added resource (reads do not write client-visible memory)."),
+ "C06": ("Attr.UnmarshalToType proved faithful against the assumed codec contracts: for each of the 28 kinds an accepted payload is an integer literal within the declared width/signedness stored unchanged (narrowing conversions included), true/false, a JSON string / RFC 3339 time / base64 string decoded by encoding/json; null only for nullable kinds (as nil); the result has exactly the schema's Go type; error xor value.",
+         "Assumed: strconv.Atoi/ParseInt/ParseUint return the literal's value iff it is in range, json.Unmarshal into string/time/[]byte is a function of the text and a no-op on null; payload fragments are whitespace-trimmed RawMessages. Known findings KF-C05-1 (bytes panic, pinned by a test) and KF-C06-1 (null accepted for non-nullable bytes, pinned by a test). The re-marshal law and relationship linkage are not covered."),
+ "C16": ("Strongest postconditions on Rel.Invert / Rel.Normalize proved for all inputs from the real SSA; the property's laws (involution, idempotence, either-or, one-way untouched, agreement with the inverse) proved as lemmas over those contracts. Schema.Rels / buildRels proved to list Normalize(r) for every relationship, nothing else, without duplicates, sorted by (type name, relationship name) with the comparison closure proved to be that order.",
+         "Strings are SMT sequences compared lexicographically (byte order). sort.Slice is assumed to permute in place and to sort with respect to the closure's proved contract; uniqueness of a sorted duplicate-free list under a total order (hence independence of build order) is the standard argument, not machine-checked here."),
 }
 na = {
  "C08": "The law parse(String(u)) = u is a statement about net/url and encoding/json parsing; a contract that could express it would be a hand-written model of those parsers (DESIGN.md §5).",
